@@ -14,6 +14,10 @@
 //           Key-order family (order_inputs / run_order): the library's own image, dynamic image, PARAMETRIC image and PET projection-data
 //           headers with their size-giving lines in another order: rejected, or all tables of the header object have the announced length,
 //           the size-giving members equal those of the writer's order and the reader returns the same voxel data.
+//           TOF-key family (make_tof_corpus / tofkey_inputs): projection-data headers of TOF-capable scanners (generated, GE Discovery 690;
+//           4-D non-TOF and 5-D TOF) with their TOF lines removed / moved to every position and TOF lines inserted at every position;
+//           universal size oracle of the `pdfs` target (pdfs_object_vs_header): accepted => the object has exactly the TOF bins and the
+//           per-segment sizes that the header declares, and every segment x TOF bin can be read (or the read is refused with error()).
 //           Copy histories (run_copy_history, target `copy`): registered parsing classes built, printed, copied (copy constructor /
 //           operator= / clone()), original re-parsed or destroyed, copy printed / parsed / round-tripped.
 // Every input must either be rejected (exception, null pointer, parse()==false) or produce an object whose sizes agree
@@ -28,7 +32,7 @@
 //   CASE <target> <index> <verdict> [detail]       verdict: rejected | accepted | inconsistent | killed; a trailing token
 //                                                  `+signed-overflow` = UBSan reported a (non-fatal) signed integer overflow
 //   KILLED <target> <index> <how> <inputfile> <stderrfile>
-//   DONE inputs=<n> killed=<k> inconsistent=<m> structured=<s> order=<o> copy=<c>
+//   DONE inputs=<n> killed=<k> inconsistent=<m> structured=<s> order=<o> copy=<c> tofkeys=<t>
 #include "common.h"
 #include "stir_fixtures.h"
 #include "stir/KeyParser.h"
@@ -576,10 +580,56 @@ pdfs_facts_check(const std::string& text, const ProjDataFromStream& pd)
   if (hasB && B != pd.get_num_tangential_poss())
     return "header contradicts the accepted projection data: " + std::to_string(pd.get_num_tangential_poss()) + " tangential positions, 'matrix size [1]' says " + std::to_string(B);
   const long ntof = std::max(1, pd.get_num_tof_poss());
+  if (ndim == 4 && ntof != 1)
+    return "{pdfs:tof-bins-for-4D-header} header contradicts the accepted projection data: " + std::to_string(ntof)
+           + " TOF bins, but 'number of dimensions := 4' (no TOF dimension declared)";
   if (ndim == 5 && hasT && T != ntof)
     return "header contradicts the accepted projection data: " + std::to_string(ntof) + " TOF bins, 'matrix size [5]' says " + std::to_string(T);
   if (hasorder && !order.empty() && static_cast<long>(order.size()) != ntof)
     return "header contradicts the accepted projection data: " + std::to_string(ntof) + " TOF bins, 'TOF bin order' lists " + std::to_string(order.size());
+  return "";
+}
+
+// "" or what is wrong.  The PET header class is run on the text once more (the same deterministic parse that read_interfile_PDFS
+// did) to get at the members that state what the header DECLARES: num_timing_poss (1 for a 4-D header, 'matrix size [5]' for a
+// 5-D one, fixed by find_storage_order at the first ring-difference key), num_rings_per_segment, num_views, num_bins.
+// The returned object has to have exactly that geometry: bins(object) = sum(axial) x views x tangential x num_timing_poss.
+// Texts that read_interfile_PDFS hands to the SPECT / Siemens header classes are left to the other oracles.
+static std::string
+pdfs_object_vs_header(const std::string& text, const ProjDataFromStream& pd, long object_bins)
+{
+  try
+    {
+      MinimalInterfileHeader mh;
+      std::istringstream in(text);
+      if (!mh.parse(in, false))
+        return "";
+      if (mh.get_exam_info().imaging_modality.get_modality() == ImagingModality::NM || !mh.siemens_mi_version.empty())
+        return "";
+      c17::PdfsHdrProbe h;
+      std::istringstream in2(text);
+      if (!h.parse(in2) || !h.data_info_sptr)
+        return "";
+      const long tof_obj = pd.get_num_tof_poss(), tof_info = h.data_info_sptr->get_num_tof_poss(), tof_decl = h.num_timing_poss;
+      if (tof_obj != tof_decl || tof_info != tof_decl)
+        return "{pdfs:tof-bins-vs-declared-dimensions} projection data accepted with " + std::to_string(tof_obj) + " TOF bins (TOF mashing factor "
+               + std::to_string(pd.get_proj_data_info_sptr()->get_tof_mash_factor()) + ", scanner has "
+               + std::to_string(pd.get_proj_data_info_sptr()->get_scanner_ptr()->get_max_num_timing_poss()) + " unmashed TOF bins) but the header declares "
+               + std::to_string(tof_decl) + " ('number of dimensions := " + std::to_string(h.num_dimensions) + "'): the object would read "
+               + std::to_string(object_bins) + " bins";
+      long per_tof = 0;
+      for (int a : h.num_rings_per_segment)
+        per_tof += static_cast<long>(a) * h.num_views * h.num_bins;
+      if (per_tof * tof_decl != object_bins)
+        return "{pdfs:object-size-vs-header} projection data accepted: the object reads " + std::to_string(object_bins) + " bins, the header declares "
+               + std::to_string(per_tof) + " x " + std::to_string(tof_decl) + " TOF bins";
+    }
+  catch (std::bad_alloc&)
+    {
+      throw;
+    }
+  catch (std::exception&)
+    {}
   return "";
 }
 
@@ -700,6 +750,16 @@ run_target(Target t, const std::string& text, const std::string& workdir, bool f
             bins *= std::max(1, pd->get_num_tof_poss());
             if (bins <= 0)
               return "inconsistent projection data accepted with " + std::to_string(bins) + " bins";
+            // UNIVERSAL SIZE ORACLE, header object against returned object (PET reader only; any input, clean or not):
+            // the header class derives `num_timing_poss` from what the header DECLARES ('number of dimensions' 4 => 1,
+            // 5 => 'matrix size [5]', at the first ring-difference key) and the per-segment sizes from the 'matrix size'
+            // lists; the object that is returned must read exactly that many bins, whatever the TOF keys
+            // ('TOF mashing factor', scanner timing keys) say and wherever they stand in the header.
+            {
+              const std::string why = pdfs_object_vs_header(text, *pd, bins);
+              if (!why.empty())
+                return "inconsistent " + why;
+            }
             if (facts)
               {
                 const std::string why = pdfs_facts_check(text, *pd);
@@ -1011,6 +1071,192 @@ make_order_corpus(const std::string& workdir, vh::Rng& rng)
       std::fprintf(stderr, "corpus (order family): %s\n", e.what());
     }
   return seeds;
+}
+
+// ------------------------------------------------------------------------------------------------ TOF keys at every position
+// Projection-data headers of TOF-CAPABLE scanners, written by the library: a generated scanner with timing information and the
+// GE Discovery 690 (recognised by name: the header needs no timing keys of its own), each with non-TOF data (4-D header, the
+// writer puts 'TOF mashing factor := 0' where it likes) and with TOF data (5-D header).
+static std::vector<Seed>
+make_tof_corpus(const std::string& workdir, vh::Rng& rng)
+{
+  std::vector<Seed> seeds;
+  for (int k = 0; k < 4; ++k)
+    try
+      {
+        const bool named = k >= 2, tof = k % 2 == 1;
+        shared_ptr<Scanner> scanner;
+        shared_ptr<ProjDataInfo> pdi;
+        if (named)
+          {
+            scanner.reset(new Scanner(Scanner::Discovery690));
+            // few views and tangential positions, segment 0 only or +-1: the data file stays small (the seeded defect of round 3:
+            // 24 x 18 x 5 floats = 8640 bytes non-TOF, x 11 TOF bins with mashing factor 5)
+            pdi = vh::make_pdi(scanner, 1, rng.range(0, 1), 18, rng.range(3, 6), false, tof ? 5 : 0);
+          }
+        else
+          {
+            const int maxtof = tof ? 15 : 2 * rng.range(2, 5) + 1;
+            scanner = vh::make_scanner(2 * rng.range(4, 10), rng.range(2, 4), maxtof);
+            pdi = vh::make_pdi(scanner, 1, scanner->get_num_rings() - 1, scanner->get_num_detectors_per_ring() / 2, scanner->get_num_detectors_per_ring() / 2 - 1, false,
+                               tof ? 3 : 0);
+          }
+        shared_ptr<ExamInfo> exam(new ExamInfo);
+        exam->imaging_modality = ImagingModality::PT;
+        const std::string base = "pd_tof" + std::to_string(k);
+        {
+          ProjDataInterfile pd(exam, pdi, workdir + "/" + base);
+          for (int seg = pd.get_min_segment_num(); seg <= pd.get_max_segment_num(); ++seg)
+            for (int tofp = pd.get_min_tof_pos_num(); tofp <= pd.get_max_tof_pos_num(); ++tofp)
+              {
+                SegmentByView<float> s = pd.get_empty_segment_by_view(seg, false, tofp);
+                s.fill(1.F + tofp);
+                pd.set_segment(s);
+              }
+        }
+        seeds.push_back({ T_PDFS, base, slurp(workdir + "/" + base + ".hs") });
+      }
+    catch (std::exception& e)
+      {
+        std::fprintf(stderr, "corpus (TOF family %d): %s\n", k, e.what());
+      }
+  return seeds;
+}
+
+static const char* TOFKEY_TAG = "tofkeys ";
+
+static std::string
+fmt_list(const std::vector<long>& l);
+
+// The family: every TOF-related line of the header moved to every position; TOF-related lines (mashing factor in both
+// spellings, number of (unmashed) TOF bins in both spellings, bin size, timing resolution, bin order) with plausible and
+// contradicting values INSERTED at every position (quick: the mashing-factor lines at every position, the others at sampled
+// positions); the header's own TOF lines removed.  No expectation is attached: the verdict of the universal oracles of the
+// `pdfs` target decides (rejected / accepted and consistent with what the header declares / inconsistent / killed).
+static std::vector<Structured>
+tofkey_inputs(const Seed& seed, vh::Rng& rng, bool thorough)
+{
+  std::vector<Structured> out;
+  const std::vector<std::string> lines = split_lines(seed.text);
+  if (lines.size() < 6)
+    return out;
+  auto is_tof_line = [](const std::string& l) {
+    const std::string k = c17::std_key_of(l);
+    return k.find("tof") != std::string::npos || k.find("timing") != std::string::npos;
+  };
+  std::set<std::string> seen;
+  auto add = [&](const std::vector<std::string>& l, const std::string& what) {
+    const std::string t = join_lines(l);
+    if (t != seed.text && seen.insert(t).second)
+      out.push_back({ t, TOFKEY_TAG + what });
+  };
+  const int n = static_cast<int>(lines.size());
+  long maxtof = 0, mash = 0;
+  for (const std::string& l : lines)
+    {
+      const std::string k = c17::std_key_of(l);
+      const std::size_t as = l.find(":=");
+      if (as == std::string::npos)
+        continue;
+      if (k == "maximum number of (unmashed) tof time bins" || k == "number of tof time bins")
+        maxtof = std::atol(l.c_str() + as + 2);
+      if (k == "tof mashing factor" || k == "%tof mashing factor")
+        mash = std::atol(l.c_str() + as + 2);
+    }
+  if (maxtof <= 0)
+    maxtof = 55; // the named scanner: the header may leave it to the scanner table
+  // (1) each TOF line of the header: removed, and moved to every position
+  for (int k = 1; k + 1 < n; ++k)
+    if (is_tof_line(lines[k]))
+      {
+        std::vector<std::string> without = lines;
+        without.erase(without.begin() + k);
+        {
+          // a 4-D header without its mashing-factor line is a plain non-TOF header (find_storage_order resets the factor): must be accepted
+          long nd = 0;
+          Facts f = scan_facts(seed.text);
+          const std::string t = join_lines(without);
+          if (c17::std_key_of(lines[k]).find("mashing") != std::string::npos && f.scalar("number of dimensions", 0, nd) && nd == 4 && seen.insert(t).second)
+            out.push_back({ t, "must-accept 4-D header of a TOF-capable scanner without a 'TOF mashing factor' line" });
+          else
+            add(without, "'" + c17::std_key_of(lines[k]) + "' removed");
+        }
+        // quick tier: the mashing-factor line to every position, the scanner timing lines to every third one
+        const bool is_mash = c17::std_key_of(lines[k]).find("mashing") != std::string::npos;
+        for (int pos = 1; pos < static_cast<int>(without.size()); pos += (thorough || is_mash) ? 1 : 3)
+          {
+            std::vector<std::string> l = without;
+            l.insert(l.begin() + pos, lines[k]);
+            add(l, "'" + c17::std_key_of(lines[k]) + "' moved to line " + std::to_string(pos));
+          }
+      }
+  // (2) inserted lines
+  std::vector<std::string> every, sampled;
+  std::set<long> mashes = { 0, 5, maxtof + 1 };
+  if (thorough)
+    for (long m : { 1L, 3L, maxtof, -1L, 2L })
+      mashes.insert(m);
+  if (mash > 0)
+    mashes.insert(mash);
+  for (long m : mashes)
+    every.push_back("TOF mashing factor := " + std::to_string(m));
+  every.push_back("%TOF mashing factor := " + std::to_string(mash > 0 ? mash : 5));
+  if (thorough)
+    every.push_back("%TOF mashing factor := 1");
+  else
+    sampled.push_back("%TOF mashing factor := 1");
+  for (long v : { maxtof, 3 * maxtof, 1L, 0L, -1L, 11L })
+    {
+      sampled.push_back("Maximum number of (unmashed) TOF time bins := " + std::to_string(v));
+      sampled.push_back("Number of TOF time bins := " + std::to_string(v));
+    }
+  for (const char* v : { "89", "0", "-1" })
+    {
+      sampled.push_back(std::string("Size of unmashed TOF time bins (ps) := ") + v);
+      sampled.push_back(std::string("Size of timing bin (ps) := ") + v);
+      sampled.push_back(std::string("TOF timing resolution (ps) := ") + v);
+      sampled.push_back(std::string("timing resolution (ps) := ") + v);
+    }
+  bool has_order = false;
+  for (const std::string& l : lines)
+    if (c17::std_key_of(l) == "tof bin order")
+      has_order = true;
+  if (!has_order)
+    for (long T : { 1L, 3L, 11L, maxtof })
+      {
+        std::vector<long> order;
+        for (long j = 0; j < T; ++j)
+          order.push_back(j - T / 2);
+        sampled.push_back("TOF bin order := " + fmt_list(order));
+      }
+  for (const std::string& x : every)
+    for (int pos = 1; pos < n; ++pos)
+      {
+        std::vector<std::string> l = lines;
+        l.insert(l.begin() + pos, x);
+        add(l, "'" + x + "' inserted at line " + std::to_string(pos));
+      }
+  const int nsample = thorough ? n : 4;
+  for (const std::string& x : sampled)
+    for (int j = 0; j < nsample; ++j)
+      {
+        const int pos = thorough ? j + 1 : rng.range(1, n - 1);
+        if (pos >= n)
+          continue;
+        std::vector<std::string> l = lines;
+        l.insert(l.begin() + pos, x);
+        add(l, "'" + x + "' inserted at line " + std::to_string(pos));
+      }
+  // (3) two TOF lines at once: a scanner timing key somewhere and a mashing factor somewhere else
+  for (int j = 0; j < (thorough ? 2000 : 60); ++j)
+    {
+      std::vector<std::string> l = lines;
+      const std::string a = sampled[rng.range(0, static_cast<int>(sampled.size()) - 1)], b = every[rng.range(0, static_cast<int>(every.size()) - 1)];
+      l.insert(l.begin() + rng.range(1, static_cast<int>(l.size()) - 1), a);
+      l.insert(l.begin() + rng.range(1, static_cast<int>(l.size()) - 1), b);
+      add(l, "'" + a + "' and '" + b + "' inserted");
+    }
+  return out;
 }
 
 // header-object stage: parse `text` with the header class of the target; accepted => table lengths and a dump of all size-giving members
@@ -2222,13 +2468,18 @@ main(int argc, char** argv)
       vh::Rng rng(seed * 1315423911ULL + 1717), rng2(seed * 2654435761ULL + 4242);
       make_corpus(workdir, rng); // data files for the headers
       make_order_corpus(workdir, rng2);
+      {
+        vh::Rng rng3(seed * 40503ULL + 9091);
+        make_tof_corpus(workdir, rng3);
+      }
       signal(SIGALRM, on_alarm);
       signal(SIGABRT, on_abort);
       alarm(20);
       const std::string expect = argc > 5 ? std::string(argv[5]) : std::string();
       const std::string verdict = expect.compare(0, std::strlen(ORDER_TAG), ORDER_TAG) == 0
                                       ? run_order(t, slurp(argv[4]), unhexs(expect.substr(std::strlen(ORDER_TAG))), workdir)
-                                      : apply_expectation(expect, run_target(t, slurp(argv[4]), workdir, true));
+                                      : apply_expectation(expect.compare(0, std::strlen(TOFKEY_TAG), TOFKEY_TAG) == 0 ? std::string() : expect,
+                                                          run_target(t, slurp(argv[4]), workdir, true));
       std::printf("VERDICT %s\n", verdict.c_str());
       return verdict.compare(0, 12, "inconsistent") == 0 ? 3 : 0;
     }
@@ -2277,7 +2528,7 @@ main(int argc, char** argv)
     }
   // ---- size-giving keys in another order (own random stream: the inputs above do not depend on this family)
   g_workdir_for_copy = workdir;
-  long n_order = 0, n_copy = 0;
+  long n_order = 0, n_copy = 0, n_tofkeys = 0;
   {
     vh::Rng rng2(seed * 2654435761ULL + 4242);
     std::vector<Seed> order_seeds = make_order_corpus(workdir, rng2);
@@ -2292,6 +2543,30 @@ main(int argc, char** argv)
           work.push_back({ s.t, s.name, st.text, st.expect, true });
           ++n_order;
         }
+    // ---- TOF keys at every position of projection-data headers of TOF-capable scanners (own random stream)
+    {
+      vh::Rng rng3(seed * 40503ULL + 9091);
+      const std::vector<Seed> tof_seeds = make_tof_corpus(workdir, rng3);
+      std::vector<Seed> fam = tof_seeds;
+      for (const Seed& s : seeds)
+        if (s.t == T_PDFS && s.name == "pd_2") // the TOF header of the main corpus
+          fam.push_back(s);
+      const std::string longname(6000, 'A');
+      for (const Seed& s : tof_seeds)
+        {
+          for (const Structured& st : structured_inputs(s, rng3))
+            work.push_back({ s.t, s.name, st.text, st.expect, true });
+          // the generic mutations as well, on a smaller scale (the TOF branches of post_processing / ProjDataInfo under hostile values)
+          for (int k = 0; k < (thorough ? 1500 : 80); ++k)
+            work.push_back({ s.t, s.name, mutate_text(rng3, s.text, longname), "", true });
+        }
+      for (const Seed& s : fam)
+        for (const Structured& st : tofkey_inputs(s, rng3, thorough))
+          {
+            work.push_back({ s.t, s.name, st.text, st.expect, true });
+            ++n_tofkeys;
+          }
+    }
     // ---- copies of parsing objects
     const int nseeds = thorough ? 12 : 2;
     for (auto& c : copy_classes())
@@ -2306,7 +2581,24 @@ main(int argc, char** argv)
 
   // The work list is cut into NWORKERS contiguous slices, each handled by its own supervisor process (which forks one child
   // per batch as before and writes its own part of the result file); the parts are concatenated in order afterwards.
-  const int NWORKERS = 8;
+  const int NWORKERS = 12;
+  {
+    // balance the slices: slice w gets the inputs w, w + NWORKERS, w + 2 NWORKERS ... of the list built above (the families differ
+    // a lot in cost per input and stand one after the other in that list)
+    std::vector<Work> riffled;
+    riffled.reserve(work.size());
+    std::vector<std::vector<std::size_t>> share(NWORKERS);
+    for (std::size_t k = 0; k < work.size(); ++k)
+      share[k % NWORKERS].push_back(k);
+    // slice boundaries below are size * w / NWORKERS: fill the slices in exactly those sizes
+    std::vector<std::size_t> order;
+    for (int w = 0; w < NWORKERS; ++w)
+      for (std::size_t k : share[w])
+        order.push_back(k);
+    for (std::size_t k : order)
+      riffled.push_back(work[k]);
+    work.swap(riffled);
+  }
   std::fclose(res);
   std::vector<pid_t> supervisors;
   std::fflush(nullptr);
@@ -2361,7 +2653,9 @@ main(int argc, char** argv)
               alarm(thorough ? 30 : 15);
               std::string verdict = work[k].expect.compare(0, std::strlen(ORDER_TAG), ORDER_TAG) == 0
                                         ? run_order(work[k].t, work[k].text, unhexs(work[k].expect.substr(std::strlen(ORDER_TAG))), workdir)
-                                        : apply_expectation(work[k].expect, run_target(work[k].t, work[k].text, workdir, work[k].facts));
+                                        : work[k].expect.compare(0, std::strlen(TOFKEY_TAG), TOFKEY_TAG) == 0
+                                              ? run_target(work[k].t, work[k].text, workdir, work[k].facts) + " tofkey-family"
+                                              : apply_expectation(work[k].expect, run_target(work[k].t, work[k].text, workdir, work[k].facts));
               alarm(0);
               // UBSan signed-integer-overflow reports are not fatal (see checks/c17.py): tag the verdict
               if (slurp(errfile).find("signed integer overflow") != std::string::npos)
@@ -2459,7 +2753,7 @@ main(int argc, char** argv)
     }
   // a supervisor that did not finish leaves the DONE line out: the check reports the run as incomplete
   if (all_ok && parts == NWORKERS)
-    std::fprintf(res, "DONE inputs=%zu killed=%ld inconsistent=%ld structured=%ld order=%ld copy=%ld\n", work.size(), killed, inconsistent, structured - n_order, n_order, n_copy);
+    std::fprintf(res, "DONE inputs=%zu killed=%ld inconsistent=%ld structured=%ld order=%ld copy=%ld tofkeys=%ld\n", work.size(), killed, inconsistent, structured - n_order - n_tofkeys, n_order, n_copy, n_tofkeys);
   std::fclose(res);
   return 0;
 }
